@@ -517,4 +517,118 @@ def Decoder_DecodeFixed64.body (fuel : Nat) : Decoder_DecodeFixed64.St → Go.Ou
 def Decoder_DecodeFixed64 (fuel : Nat) (d_p : Bytes) (d_offset : BitVec 64) (d_mode : BitVec 64) (d_keyStart : BitVec 64) (d_keyEnd : BitVec 64) : Go.Out Decoder_DecodeFixed64.St Decoder_DecodeFixed64.R :=
   Decoder_DecodeFixed64.body fuel { d_p := d_p, d_offset := d_offset, d_mode := d_mode, d_keyStart := d_keyStart, d_keyEnd := d_keyEnd }
 
+/-! ### `Encoder.EncodeUInt64` (/repo/encoder.go:56:1) -/
+
+structure Encoder_EncodeUInt64.St where
+  e_p : Bytes
+  e_offset : BitVec 64
+  tag : BitVec 64
+  v : BitVec 64
+
+abbrev Encoder_EncodeUInt64.R := Unit
+
+/-- the body of `Encoder_EncodeUInt64`, statement by statement -/
+def Encoder_EncodeUInt64.body (fuel : Nat) : Encoder_EncodeUInt64.St → Go.Out Encoder_EncodeUInt64.St Encoder_EncodeUInt64.R :=
+  (Go.seq (Go.seq (fun s => if ((s.e_offset).toNat ≤ s.e_p.length) then match (EncodeTag fuel (s.e_p.drop (s.e_offset).toNat) s.tag 0#64) with | .ret r c => .next { s with e_p := s.e_p.take (s.e_offset).toNat ++ c.dest, e_offset := (s.e_offset + r) } | .next _ => .panic | .panic => .panic | .diverge => .diverge else .panic)
+    (fun s => if ((s.e_offset).toNat ≤ s.e_p.length) then match (EncodeVarint fuel (s.e_p.drop (s.e_offset).toNat) s.v) with | .ret r c => .next { s with e_p := s.e_p.take (s.e_offset).toNat ++ c.dest, e_offset := (s.e_offset + r) } | .next _ => .panic | .panic => .panic | .diverge => .diverge else .panic))
+    (fun s => .ret () s))
+
+def Encoder_EncodeUInt64 (fuel : Nat) (e_p : Bytes) (e_offset : BitVec 64) (tag : BitVec 64) (v : BitVec 64) : Go.Out Encoder_EncodeUInt64.St Encoder_EncodeUInt64.R :=
+  Encoder_EncodeUInt64.body fuel { e_p := e_p, e_offset := e_offset, tag := tag, v := v }
+
+/-! ### `Encoder.EncodeUInt32` (/repo/encoder.go:50:1) -/
+
+structure Encoder_EncodeUInt32.St where
+  e_p : Bytes
+  e_offset : BitVec 64
+  tag : BitVec 64
+  v : BitVec 32
+
+abbrev Encoder_EncodeUInt32.R := Unit
+
+/-- the body of `Encoder_EncodeUInt32`, statement by statement -/
+def Encoder_EncodeUInt32.body (fuel : Nat) : Encoder_EncodeUInt32.St → Go.Out Encoder_EncodeUInt32.St Encoder_EncodeUInt32.R :=
+  (Go.seq (Go.seq (fun s => if ((s.e_offset).toNat ≤ s.e_p.length) then match (EncodeTag fuel (s.e_p.drop (s.e_offset).toNat) s.tag 0#64) with | .ret r c => .next { s with e_p := s.e_p.take (s.e_offset).toNat ++ c.dest, e_offset := (s.e_offset + r) } | .next _ => .panic | .panic => .panic | .diverge => .diverge else .panic)
+    (fun s => if ((s.e_offset).toNat ≤ s.e_p.length) then match (EncodeVarint fuel (s.e_p.drop (s.e_offset).toNat) (BitVec.setWidth 64 s.v)) with | .ret r c => .next { s with e_p := s.e_p.take (s.e_offset).toNat ++ c.dest, e_offset := (s.e_offset + r) } | .next _ => .panic | .panic => .panic | .diverge => .diverge else .panic))
+    (fun s => .ret () s))
+
+def Encoder_EncodeUInt32 (fuel : Nat) (e_p : Bytes) (e_offset : BitVec 64) (tag : BitVec 64) (v : BitVec 32) : Go.Out Encoder_EncodeUInt32.St Encoder_EncodeUInt32.R :=
+  Encoder_EncodeUInt32.body fuel { e_p := e_p, e_offset := e_offset, tag := tag, v := v }
+
+/-! ### `Encoder.EncodeInt64` (/repo/encoder.go:68:1) -/
+
+structure Encoder_EncodeInt64.St where
+  e_p : Bytes
+  e_offset : BitVec 64
+  tag : BitVec 64
+  v : BitVec 64
+
+abbrev Encoder_EncodeInt64.R := Unit
+
+/-- the body of `Encoder_EncodeInt64`, statement by statement -/
+def Encoder_EncodeInt64.body (fuel : Nat) : Encoder_EncodeInt64.St → Go.Out Encoder_EncodeInt64.St Encoder_EncodeInt64.R :=
+  (Go.seq (Go.seq (fun s => if ((s.e_offset).toNat ≤ s.e_p.length) then match (EncodeTag fuel (s.e_p.drop (s.e_offset).toNat) s.tag 0#64) with | .ret r c => .next { s with e_p := s.e_p.take (s.e_offset).toNat ++ c.dest, e_offset := (s.e_offset + r) } | .next _ => .panic | .panic => .panic | .diverge => .diverge else .panic)
+    (fun s => if ((s.e_offset).toNat ≤ s.e_p.length) then match (EncodeVarint fuel (s.e_p.drop (s.e_offset).toNat) s.v) with | .ret r c => .next { s with e_p := s.e_p.take (s.e_offset).toNat ++ c.dest, e_offset := (s.e_offset + r) } | .next _ => .panic | .panic => .panic | .diverge => .diverge else .panic))
+    (fun s => .ret () s))
+
+def Encoder_EncodeInt64 (fuel : Nat) (e_p : Bytes) (e_offset : BitVec 64) (tag : BitVec 64) (v : BitVec 64) : Go.Out Encoder_EncodeInt64.St Encoder_EncodeInt64.R :=
+  Encoder_EncodeInt64.body fuel { e_p := e_p, e_offset := e_offset, tag := tag, v := v }
+
+/-! ### `Encoder.EncodeInt32` (/repo/encoder.go:62:1) -/
+
+structure Encoder_EncodeInt32.St where
+  e_p : Bytes
+  e_offset : BitVec 64
+  tag : BitVec 64
+  v : BitVec 32
+
+abbrev Encoder_EncodeInt32.R := Unit
+
+/-- the body of `Encoder_EncodeInt32`, statement by statement -/
+def Encoder_EncodeInt32.body (fuel : Nat) : Encoder_EncodeInt32.St → Go.Out Encoder_EncodeInt32.St Encoder_EncodeInt32.R :=
+  (Go.seq (Go.seq (fun s => if ((s.e_offset).toNat ≤ s.e_p.length) then match (EncodeTag fuel (s.e_p.drop (s.e_offset).toNat) s.tag 0#64) with | .ret r c => .next { s with e_p := s.e_p.take (s.e_offset).toNat ++ c.dest, e_offset := (s.e_offset + r) } | .next _ => .panic | .panic => .panic | .diverge => .diverge else .panic)
+    (fun s => if ((s.e_offset).toNat ≤ s.e_p.length) then match (EncodeVarint fuel (s.e_p.drop (s.e_offset).toNat) (BitVec.signExtend 64 s.v)) with | .ret r c => .next { s with e_p := s.e_p.take (s.e_offset).toNat ++ c.dest, e_offset := (s.e_offset + r) } | .next _ => .panic | .panic => .panic | .diverge => .diverge else .panic))
+    (fun s => .ret () s))
+
+def Encoder_EncodeInt32 (fuel : Nat) (e_p : Bytes) (e_offset : BitVec 64) (tag : BitVec 64) (v : BitVec 32) : Go.Out Encoder_EncodeInt32.St Encoder_EncodeInt32.R :=
+  Encoder_EncodeInt32.body fuel { e_p := e_p, e_offset := e_offset, tag := tag, v := v }
+
+/-! ### `Encoder.EncodeSInt32` (/repo/encoder.go:74:1) -/
+
+structure Encoder_EncodeSInt32.St where
+  e_p : Bytes
+  e_offset : BitVec 64
+  tag : BitVec 64
+  v : BitVec 32
+
+abbrev Encoder_EncodeSInt32.R := Unit
+
+/-- the body of `Encoder_EncodeSInt32`, statement by statement -/
+def Encoder_EncodeSInt32.body (fuel : Nat) : Encoder_EncodeSInt32.St → Go.Out Encoder_EncodeSInt32.St Encoder_EncodeSInt32.R :=
+  (Go.seq (Go.seq (fun s => if ((s.e_offset).toNat ≤ s.e_p.length) then match (EncodeTag fuel (s.e_p.drop (s.e_offset).toNat) s.tag 0#64) with | .ret r c => .next { s with e_p := s.e_p.take (s.e_offset).toNat ++ c.dest, e_offset := (s.e_offset + r) } | .next _ => .panic | .panic => .panic | .diverge => .diverge else .panic)
+    (fun s => if ((s.e_offset).toNat ≤ s.e_p.length) then match (EncodeZigZag32 fuel (s.e_p.drop (s.e_offset).toNat) s.v) with | .ret r c => .next { s with e_p := s.e_p.take (s.e_offset).toNat ++ c.dest, e_offset := (s.e_offset + r) } | .next _ => .panic | .panic => .panic | .diverge => .diverge else .panic))
+    (fun s => .ret () s))
+
+def Encoder_EncodeSInt32 (fuel : Nat) (e_p : Bytes) (e_offset : BitVec 64) (tag : BitVec 64) (v : BitVec 32) : Go.Out Encoder_EncodeSInt32.St Encoder_EncodeSInt32.R :=
+  Encoder_EncodeSInt32.body fuel { e_p := e_p, e_offset := e_offset, tag := tag, v := v }
+
+/-! ### `Encoder.EncodeSInt64` (/repo/encoder.go:80:1) -/
+
+structure Encoder_EncodeSInt64.St where
+  e_p : Bytes
+  e_offset : BitVec 64
+  tag : BitVec 64
+  v : BitVec 64
+
+abbrev Encoder_EncodeSInt64.R := Unit
+
+/-- the body of `Encoder_EncodeSInt64`, statement by statement -/
+def Encoder_EncodeSInt64.body (fuel : Nat) : Encoder_EncodeSInt64.St → Go.Out Encoder_EncodeSInt64.St Encoder_EncodeSInt64.R :=
+  (Go.seq (Go.seq (fun s => if ((s.e_offset).toNat ≤ s.e_p.length) then match (EncodeTag fuel (s.e_p.drop (s.e_offset).toNat) s.tag 0#64) with | .ret r c => .next { s with e_p := s.e_p.take (s.e_offset).toNat ++ c.dest, e_offset := (s.e_offset + r) } | .next _ => .panic | .panic => .panic | .diverge => .diverge else .panic)
+    (fun s => if ((s.e_offset).toNat ≤ s.e_p.length) then match (EncodeZigZag64 fuel (s.e_p.drop (s.e_offset).toNat) s.v) with | .ret r c => .next { s with e_p := s.e_p.take (s.e_offset).toNat ++ c.dest, e_offset := (s.e_offset + r) } | .next _ => .panic | .panic => .panic | .diverge => .diverge else .panic))
+    (fun s => .ret () s))
+
+def Encoder_EncodeSInt64 (fuel : Nat) (e_p : Bytes) (e_offset : BitVec 64) (tag : BitVec 64) (v : BitVec 64) : Go.Out Encoder_EncodeSInt64.St Encoder_EncodeSInt64.R :=
+  Encoder_EncodeSInt64.body fuel { e_p := e_p, e_offset := e_offset, tag := tag, v := v }
+
 end Csproto.Generated.WireFuncs
